@@ -342,6 +342,15 @@ structure St where
   blockedOps : Nat := 0
   panicOps : Nat := 0
   invalidCases : Nat := 0
+  /-- `ConnectTip` has been answered `ok` and its `NotifyHeight` has not been issued yet -/
+  midState : Bool := false
+  midOps : Nat := 0
+  midRegs : Nat := 0
+  midUpds : Nat := 0
+  midCancels : Nat := 0
+  /-- mid-state registrations after which some client is dispatched AND still queued (it was
+      served by another client's registration; `CoreM` of Mid.lean) -/
+  midServedQueued : Nat := 0
 
 def mismatch (s : St) (detail : String) : IO St := do
   if s.mismatches < 40 then
@@ -758,7 +767,8 @@ def step (s : St) (line : String) : IO St := do
     let kind := (kv? rest "kind").getD ""
     let monOn := kind == "valid" || kind == "story" || kind == "persist"
     let ext := (kvNat? rest "ext").getD 0 == 1
-    let s := { s with lazyHold := [], lazyCaseFlag := false, ext := ext, lastHint := [], modelSet := [] }
+    let s := { s with lazyHold := [], lazyCaseFlag := false, ext := ext, lastHint := [], modelSet := [],
+                       midState := false }
     let s := { s with caseId := id, m := { cur := start, limit := limit }, lazy := lazy, dead := false,
                        last := [], expect := [], got := [], haveOp := false, evs := [],
                        mon := { on := monOn, limit := limit, cur := start, maxTip := start },
@@ -851,6 +861,25 @@ def step (s : St) (line : String) : IO St := do
       if implRes == "blocked" || implRes == "panic" || modelRes == "blocked" || modelRes == "panic" then
         -- the harness ends the case here
         return { s with dead := true, mon := { s.mon with on := false } }
+      -- input-distribution statistics: operations issued between ConnectTip and NotifyHeight
+      let wasMid := s.midState
+      let mid' := match o with
+        | .connect _ _ => r == .ok
+        | .notify _ => false
+        | .disconnect _ => false
+        | _ => wasMid
+      s := { s with midState := mid' }
+      if wasMid then
+        match o with
+        | .regConf _ _ _ =>
+          let served := m1.confs.any fun r => r.ntfns.any fun n =>
+            n.live && n.dispatched && !n.queuedAt.isEmpty
+          s := { s with midOps := s.midOps + 1, midRegs := s.midRegs + 1,
+                        midServedQueued := s.midServedQueued + (if served then 1 else 0) }
+        | .regSpend _ _ => s := { s with midOps := s.midOps + 1, midRegs := s.midRegs + 1 }
+        | .updConf _ _ | .updSpend _ _ => s := { s with midOps := s.midOps + 1, midUpds := s.midUpds + 1 }
+        | .cancel _ => s := { s with midOps := s.midOps + 1, midCancels := s.midCancels + 1 }
+        | _ => pure ()
       let (m2, evl) :=
         if s.lazy then (m1, [])
         else
@@ -885,6 +914,11 @@ def main (args : List String) : IO Unit := do
   IO.println s!"STAT chk_done={s.cDone}"
   IO.println s!"STAT lazy_clients_read_double_confirmed_without_notice={s.lazyDoubleConf}"
   IO.println s!"STAT lazy_clients_read_double_spend_without_notice={s.lazyDoubleSpend}"
+  IO.println s!"STAT mid_state_ops={s.midOps}"
+  IO.println s!"STAT mid_state_registrations={s.midRegs}"
+  IO.println s!"STAT mid_state_rescan_completions={s.midUpds}"
+  IO.println s!"STAT mid_state_cancels={s.midCancels}"
+  IO.println s!"STAT mid_state_reg_served_queued_client={s.midServedQueued}"
   IO.println s!"STAT impl_blocked_ops={s.blockedOps}"
   IO.println s!"STAT impl_panic_ops={s.panicOps}"
   IO.println s!"STAT mismatches={s.mismatches}"
